@@ -455,12 +455,6 @@ func runC01(e *env) {
 	for i, t := range g.operatorMatrix() {
 		add("operator-matrix", t, printCtxs[i%len(printCtxs)], d0, 0)
 	}
-	// 1b. the pairwise table: every operator x every ordered pair of operand KINDS, operands as atoms and as composites
-	for rep := 0; rep < e.scale; rep++ {
-		for i, t := range g.pairwiseTable() {
-			add("pairwise", t, printCtxs[i%len(printCtxs)], d0, 0)
-		}
-	}
 	// 2. functions x argument kinds
 	for i, t := range g.functionMatrix() {
 		add("function-matrix", t, printCtxs[i%3], d0, 0)
@@ -500,6 +494,13 @@ func runC01(e *env) {
 			k = c.want
 		}
 		add("deep", g.gen(k, 2+e.rng.Intn(4)), c, xGenData(e.rng), []int{0, 0, 15, 50}[e.rng.Intn(4)])
+	}
+	// 6. the pairwise table: every operator x every ordered pair of operand KINDS, operands as atoms and as composites
+	// (generated last, so that the groups above draw the same random numbers as before the table existed)
+	for rep := 0; rep < e.scale; rep++ {
+		for i, t := range g.pairwiseTable() {
+			add("pairwise", t, printCtxs[i%len(printCtxs)], d0, 0)
+		}
 	}
 	c01Run(e, cases)
 	c01Coverage(e, cases)
@@ -571,8 +572,13 @@ func c01SkipNotes(e *env) {
 	}
 	pct := func(n int) string { return strconv.FormatFloat(100*float64(n)/float64(cases), 'f', 2, 64) + "%" }
 	e.res.Note("skipped by the oracle: %d of %d expression cases (%s); of these outside the numeric model (inexact float result, int64 overflow, randomInt, round with digits): %d (%s), "+
-		"float outside the printing domain: %d (%s). BEFORE Num.fl_to_string covered every finite float64 (commit e7d64ae, same tier, seed and generator; printing modelled only for |x| < 10^6 with at most 9 fraction bits): "+
-		"291 of 15713 skipped (1.85%%), numeric model 246 (1.57%%), printing domain 10 (0.06%%).", skipped, cases, pct(skipped), numeric, pct(numeric), printing, pct(printing))
+		"float outside the printing domain: %d (%s). Cases with a float outside the OLD printing domain (|x| >= 10^6 or more than 9 fraction bits) among literals and data: %d, of which %d are checked against an expected output or error "+
+		"(%d expected texts contain a float in exponent form). "+
+		"BEFORE Num.fl_to_string covered every finite float64 (commit e7d64ae, quick tier, default seed; printing modelled only for |x| < 10^6 with at most 9 fraction bits, and the generator confined to |x| < 2^11 with 6 fraction bits): "+
+		"291 of 15713 skipped (1.85%%): numeric model 246, printing domain 10, other 35; no case with a float outside that domain was generated. The SAME 15713 cases (VERIF_C01_NARROW_FLOATS=1, groups other than pairwise) with the present model: 279 skipped (1.78%%), printing domain 0.",
+		skipped, cases, pct(skipped), numeric, pct(numeric), printing, pct(printing),
+		h["wide-float cases (a float literal or data value with |x| >= 10^6 or more than 9 fraction bits: outside the printing domain of the model before)"],
+		h["wide-float cases checked (expected: error)"]+h["wide-float cases checked (expected: output)"], h["wide-float cases whose expected text has a float in exponent form"])
 }
 
 func globalsSexp(g data.Map) string { return valueSexp(g, newIDTable()) }
@@ -682,6 +688,10 @@ func c01One(e *env, c *xcase, sd, st specResult) {
 
 	// --- expected output from the Spec ---
 	ex := c.expect(e, sd)
+	wide := c.tree != nil && (c.tree.hasWideFloat() || dataHasWideFloat(c.dataMap))
+	if wide {
+		e.res.Histogram["wide-float cases (a float literal or data value with |x| >= 10^6 or more than 9 fraction bits: outside the printing domain of the model before)"]++
+	}
 	if c.emptyIdentity {
 		// ledger I12: the statement does not fix the identity of an empty list ([] == [] is true here, false in the reference implementations)
 		ex = expectation{kind: "skip", why: "identity-of-empty-fresh-lists-unspecified"}
@@ -689,8 +699,12 @@ func c01One(e *env, c *xcase, sd, st specResult) {
 	switch ex.kind {
 	case "skip":
 		e.res.Histogram["outside-domain:"+ex.why]++
+		e.res.Histogram["skipped-in-group:"+c.group]++
 	case "error":
 		e.res.Histogram["expect:error"]++
+		if wide {
+			e.res.Histogram["wide-float cases checked (expected: error)"]++
+		}
 		if rerr == nil {
 			c01Fail(e, hx.Violation{Kind: "oracle", What: "the language gives the expression no value (" + ex.why + ") but the render succeeds", Case: rc(), Expected: "error", Observed: hx.Q(out)}, xFinding(c, ex, out, rerr))
 		} else if out != "" {
@@ -698,6 +712,12 @@ func c01One(e *env, c *xcase, sd, st specResult) {
 		}
 	case "out":
 		e.res.Histogram["expect:output"]++
+		if wide {
+			e.res.Histogram["wide-float cases checked (expected: output)"]++
+			if strings.Contains(ex.out, "e+") || strings.Contains(ex.out, "e-") {
+				e.res.Histogram["wide-float cases whose expected text has a float in exponent form"]++
+			}
+		}
 		if rerr != nil {
 			c01Fail(e, hx.Violation{Kind: "oracle", What: "the render returns an error for an expression that has a value", Case: rc(), Expected: hx.Q(ex.out), Observed: "error: " + firstLine(errStr(rerr))}, xFinding(c, ex, out, rerr))
 		} else if out != ex.out {
@@ -976,4 +996,57 @@ func c01Fail(e *env, v hx.Violation, known string) {
 	}
 	e.res.Histogram["fail:"+v.Kind+":"+tag]++
 	e.res.Fail(v, known)
+}
+
+// floats outside the printing domain the model had before it covered every float64
+func wideFloat(f float64) bool {
+	if f == 0 || f != f {
+		return false
+	}
+	a := f
+	if a < 0 {
+		a = -a
+	}
+	if a >= 1e6 {
+		return true
+	}
+	x := a * 512
+	return x != float64(int64(x))
+}
+
+func (e *xe) hasWideFloat() bool {
+	if e.op == "float" && wideFloat(e.f) {
+		return true
+	}
+	for _, a := range e.accs {
+		if a.kind == 'x' && a.e.hasWideFloat() {
+			return true
+		}
+	}
+	for _, k := range e.kids {
+		if k.hasWideFloat() {
+			return true
+		}
+	}
+	return false
+}
+
+func dataHasWideFloat(v data.Value) bool {
+	switch x := v.(type) {
+	case data.Float:
+		return wideFloat(float64(x))
+	case data.List:
+		for _, y := range x {
+			if dataHasWideFloat(y) {
+				return true
+			}
+		}
+	case data.Map:
+		for _, y := range x {
+			if dataHasWideFloat(y) {
+				return true
+			}
+		}
+	}
+	return false
 }
